@@ -295,6 +295,19 @@ def tmpl_pattern_overlap(rng, opts):
     return out
 
 
+def tmpl_pattern_pairs(rng, opts):
+    """Several patternProperties at once (group + back-reference, overlapping patterns)."""
+    patterns = rng.sample(["^(foo|bar)$", "^(a|b)\\1$", "(.)\\1", "^a", "o", "^[a-c]+$", "^..$"], k=rng.randint(2, 3))
+    out = {"patternProperties": {pattern: leaf(rng) for pattern in patterns},
+           "additionalProperties": rng.choice([False, False, True, leaf(rng)])}
+    if rng.random() < 0.5:
+        out["type"] = "object"
+        out["title"] = rng.choice(TITLES)
+    if rng.random() < 0.3:
+        out["properties"] = {rng.choice(["aa", "foo", "ab", "bb"]): leaf(rng)}
+    return out
+
+
 def tmpl_tuple(rng, opts):
     out = {
         "items": [leaf(rng) for _ in range(rng.randint(1, 3))],
@@ -423,6 +436,7 @@ def leaf(rng):
 TEMPLATES = [
     tmpl_required_additional, tmpl_pattern_overlap, tmpl_tuple, tmpl_composition_siblings,
     tmpl_typelist_siblings, tmpl_lookalike_literals, tmpl_same_title_objects, tmpl_nested_composition,
+    tmpl_pattern_pairs,
 ]
 
 
